@@ -75,6 +75,11 @@ def variants():
     tab = np.stack([u * 1.05, v, Kx, Ky, Kz], axis=1)
     V["profiles-table-columns"] = dict(profiles=tuple(tab[:, k_] for k_ in range(5)))
     V["source-strided-view"] = dict(srf_flx=np.repeat(np.repeat(b["srf_flx"] * 0.5, 2, axis=0), 2, axis=1)[::2, ::2])
+    # value/identity coincidences among the profile components: ONE array object handed over for two of them (a caller
+    # writing profiles = (u, v, Kh, Kh, Kz)); the two requests differ only in WHICH neighbours share the object
+    Kh = Kx * 1.3
+    V["profiles-one-object-KxKy"] = dict(profiles=(u, v, Kh, Kh, Kz))
+    V["profiles-one-object-KyKz"] = dict(profiles=(u, v, Kh, Kz, Kz))
     V["analytic"] = dict(analytic=True)
     V["halo30"] = dict(halo=30.0)
     V["haloNone"] = dict(halo=None)
@@ -108,6 +113,12 @@ def _same(a, b):
     ga, ca, fa = a
     gb, cb, fb = b
     for nm, x, y in [("grid[%d]" % i, ga[i], gb[i]) for i in range(3)] + [("conc", ca, cb), ("flx", fa, fb)]:
+        if isinstance(x, np.ndarray) and isinstance(y, np.ndarray) and x.shape == y.shape:
+            # the caller may USE what it gets (X -= tower_x, conc[mask] = nan): same writability, own elements
+            if x.flags.writeable != y.flags.writeable:
+                return "%s is %s, the uncached solve returns a %s array" % (nm, "writable" if x.flags.writeable else "read-only", "writable" if y.flags.writeable else "read-only")
+            if x.size > 1 and any(st == 0 and n_ > 1 for st, n_ in zip(x.strides, x.shape)) and not any(st == 0 and n_ > 1 for st, n_ in zip(y.strides, y.shape)):
+                return "%s has zero strides %s (its elements share memory), the uncached solve returns an ordinary array" % (nm, x.strides)
         x, y = np.asarray(x), np.asarray(y)
         if x.shape != y.shape:
             return "%s shape %s, uncached solve gives %s" % (nm, x.shape, y.shape)
